@@ -65,12 +65,12 @@ Proof. unfold enc4. cbv zeta. rewrite !cont_byte, lead4_byte, !shr6. reflexivity
 
 Lemma enc_length v : length (utf8_enc_c v) = if v <? 2048 then 2%nat else if v <? 65536 then 3%nat else 4%nat.
 Proof.
-  unfold utf8_enc_c. destruct (v <? 2048); [reflexivity|]. destruct (v <? 65536); reflexivity.
+  unfold utf8_enc_c, ENC2_LIMIT, ENC3_LIMIT. destruct (v <? 2048); [reflexivity|]. destruct (v <? 65536); reflexivity.
 Qed.
 
 Lemma enc_bytes v : Forall (fun b => 0 <= b <= 255) (utf8_enc_c v).
 Proof.
-  unfold utf8_enc_c. destruct (v <? 2048); [|destruct (v <? 65536)].
+  unfold utf8_enc_c, ENC2_LIMIT, ENC3_LIMIT. destruct (v <? 2048); [|destruct (v <? 65536)].
   - rewrite enc2_eq. repeat constructor; lia.
   - rewrite enc3_eq. repeat constructor; lia.
   - rewrite enc4_eq. repeat constructor; lia.
@@ -163,7 +163,7 @@ Qed.
 Theorem utf8_roundtrip cp r : 128 <= cp <= 1114111 -> is_surrogate cp = false ->
   utf8_decode (utf8_enc_c cp ++ r) = option_map (cons cp) (utf8_decode r).
 Proof.
-  intros H S. unfold utf8_enc_c.
+  intros H S. unfold utf8_enc_c, ENC2_LIMIT, ENC3_LIMIT.
   destruct (Z.ltb_spec cp 2048); [apply dec_enc2; lia|].
   destruct (Z.ltb_spec cp 65536).
   - rewrite dec_enc3 by lia. rewrite S. reflexivity.
@@ -174,7 +174,7 @@ Qed.
 (* the bytes are the RFC 3629 encoding *)
 Theorem enc_is_utf8 cp : 128 <= cp <= 1114111 -> utf8_enc_c cp = utf8_ref cp.
 Proof.
-  intros H. unfold utf8_enc_c, utf8_ref.
+  intros H. unfold utf8_enc_c, utf8_ref, ENC2_LIMIT, ENC3_LIMIT.
   destruct (Z.ltb_spec cp 128); [lia|].
   destruct (Z.ltb_spec cp 2048).
   - rewrite enc2_eq. repeat (f_equal; try lia).
@@ -216,7 +216,7 @@ Proof. intros H. induction n; cbn [repeat]; constructor; [lia|assumption]. Qed.
 Theorem padded_b_refines iv ulength pad : 2 <= ulength -> 0 <= pad <= 127 ->
   from_ordinal_padded_b iv ulength pad = from_ordinal_padded iv ulength pad.
 Proof.
-  intros Hu Hp. unfold from_ordinal_padded_b, from_ordinal_padded. cbv zeta.
+  intros Hu Hp. unfold from_ordinal_padded_b, from_ordinal_padded, PAD_LIMIT, SURR_LO, SURR_HI, LATIN1_MAX. cbv zeta.
   assert (Cp : cchar pad = pad) by (unfold cchar; lia). rewrite Cp.
   destruct ((ulength - 1 <=? 250) && ((iv <? 55296) || (57343 <? iv))) eqn:G; [|reflexivity].
   unfold CHARS_SIZE.
@@ -228,7 +228,7 @@ Proof.
                   - (ulength - 1) <? 0)) = false).
     { destruct (iv <? 2048); [lia|]. destruct (iv <? 65536); lia. }
     rewrite B. rewrite decode_ascii_prefix by (apply repeat_ascii; assumption).
-    rewrite <- (app_nil_r (utf8_enc_c iv)). unfold utf8_enc_c.
+    rewrite <- (app_nil_r (utf8_enc_c iv)). unfold utf8_enc_c, ENC2_LIMIT, ENC3_LIMIT.
     destruct (Z.ltb_spec iv 2048).
     + rewrite dec_enc2 by lia. cbn [utf8_decode option_map].
       replace (iv <? 65536) with true by lia. reflexivity.
